@@ -21,6 +21,12 @@ CLAIMED = {
          "QRegExp is an oracle (tabulated by calling it directly); sub-handler patterns start-anchored."),
  "C06": ("Theorems for EVERY tree/path/regexp engine/accept assignment: gate (every consulted middleware but the last accepted; outcome is a refusal iff the last consulted refused and then contains nothing else), consulted_in_attachment_order (= all middleware of the handler and its ancestors on the route, in order, up to the first refusal), route_refines_outcome. Tie: as C05 plus refusing and request-dependent middleware and several connections through one tree.",
          "QRegExp is an oracle; the refusing middleware of the harness answers 403."),
+ "C09": ("Theorems: admit_iff (admitted iff 'Basic' in any case, one space, a space-free token that decodes to user:password with that exact user registered with that exact password), spec_admits_iff / model_meets_spec (the boolean statement evaluated on implementation observations is the same predicate), refusal_response (401 + WWW-Authenticate: Basic realm=..., page, close), admitted_silent, token_exists (fromBase64 (toBase64 s) = s for every byte string). Tie: BasicAuthMiddleware::process on a Socket over SimTcp vs. model: credential tables x structured near misses; fromBase64/toBase64 vs. model.",
+         "'base64-decodes to' is Qt's lenient decoder (modelled, compared on every run); users/passwords valid UTF-8."),
+ "C15": ("Theorems: exact_name (the registration in force is the last one under exactly that name), unregistered_404, bad_slot_500, invoke_now / deferred_otherwise (deferred exactly when the whole body is asked for and fewer than the declared bytes are readable), deferred_invoked_once (for EVERY segmentation: exactly once iff the N-th byte arrives, nothing afterwards), full_body_at_invocation. Tie: QObjectHandler as root of the real server wiring over SimTcp: registries through the four registration forms + bad slots x paths x bodies x segmentations; the slot logs bytesAvailable().",
+         "request targets in the C01 class."),
+ "C17": ("Theorems: file_invariant (for EVERY history of calls: while an instance is alive the file exists with mode 0600 and holds the current data incl. the token member), construct_establishes, set_data_keeps, admit_iff_token, removed_on_destroy. Tie: LocalAuthMiddleware with HOME redirected: histories x umasks x pre-existing permissive file, file mode/content observed after EVERY call, process() with token variants. PARTIAL: 'tokens of distinct instances differ' is randomness of QUuid - observed (N successive instances distinct), not proved.",
+         "QUuid, QJsonDocument are oracles; data values are strings; one live instance per application name."),
  "C14": ("Theorems: copies_slice (every content, block size >= 1, forward/open range: exactly the requested bytes clipped at the end, one completion), block_copy invariant, stop_halts (after stop(): for every later schedule no byte and no completion), start_failure / block_failure (error then the single completion), sequential_copy (every arrival partition: concatenation, completion once). Tie: QIODeviceCopier over scripted devices: exhaustive small contents x block sizes x ranges, stop at every turn, failing primitives, all arrival partitions.",
          "Scripted QIODevice subclasses stand in for files/sockets; a range on a sequential source is outside the documented API."),
  "C16": ("Theorems over a literal model of range.cpp for all integers: valid_known, invalid_shape, valid_iff, string_iff, ctor_wf, copy_resize_preserve, no 64-bit overflow below 2^62, model meets the boolean statement. Tie: exhaustive small triples, all short strings, boundary-biased values against the real Range class.",
